@@ -8,8 +8,11 @@
 //	                goroutines next to unrelated operations, and the same under a -race build
 //	-mode source    oracle: permuted HCL sources (table blocks, files) -> same statements, same
 //	                schema on the real SQLite engine; dependent statements keep their order
+//	-mode history   oracle: a differ/planner of server flavour B (MySQL 8.0 / 5.7, MariaDB, TiDB, PostgreSQL 15 / 10,
+//	                CockroachDB over fake drivers, the DefaultDiff values) after one of flavour A in the same
+//	                process = B in a fresh process
 //	-mode findings  oracle: the order-dependent sites the theorems refute, on the real code
-//	-mode child / concchild   internal (fresh process / -race binary)
+//	-mode child / concchild / coldchild / histchild   internal (fresh process / -race binary)
 package main
 
 import (
@@ -21,7 +24,8 @@ import (
 )
 
 func main() {
-	mode := flag.String("mode", "", "census|sites|repeat|source|findings|cold|child|concchild|coldchild")
+	mode := flag.String("mode", "", "census|sites|repeat|source|findings|cold|history|child|concchild|coldchild|histchild")
+	flavour := flag.String("flavour", "", "histchild: the server flavour (fakemy.go, fakepg.go)")
 	pair := flag.String("pair", "", "coldchild: the two kinds of operation, A,B")
 	rot := flag.Int("rot", 0, "coldchild: rotation of the dialect order")
 	tier := flag.String("tier", "quick", "quick|thorough")
@@ -41,6 +45,8 @@ func main() {
 		os.Exit(concChildMain())
 	case "coldchild":
 		os.Exit(coldChildMain(*pair, *rot, *outDir))
+	case "histchild":
+		os.Exit(histChildMain(*flavour, *outDir))
 	}
 	w := out.New(*outDir)
 	switch *mode {
@@ -52,6 +58,10 @@ func main() {
 		sourceMain(w, *tier)
 	case "cold":
 		coldMain(w, *tier)
+	case "history":
+		historyMain(w, *tier)
+	case "persite":
+		persiteMain(w, *tier)
 	case "findings":
 		findingsMain(w, *tier)
 	default:
